@@ -461,3 +461,12 @@ Definition tag_listed (last : str) (e : str * str) : bool :=
 
 Definition list_tags (entries : list (str * str)) (last : str) : list str :=
   ssort (map fst (filter (tag_listed last) entries)).
+
+(* ---------- registry.Tags / registry.Repositories / registry.Referrers / Predecessors ---------- *)
+
+(* the helpers that collect a whole listing (start value ""): all pages appended, or the error *)
+Definition collect_all (t : trace) : outcome * list item :=
+  match t_out t with
+  | Done => (Done, concat (t_pages t))
+  | e => (e, [])
+  end.
